@@ -117,7 +117,7 @@ func DamageJSON(t *tape.Tape, data []byte) (out []byte, desc []string, kinds []s
 			}
 			if sv, ok := get(a).(string); ok && len(sv) <= 3 && t.Bool("jd.short.weird") {
 				// a delimiter-like value replaced by another delimiter-like value
-				shortWeird := []string{"", "\n", "\r", "\"", " ", "\x00", "ab", "é", "*", "|", "\r\n"}
+				shortWeird := []string{"", "\n", "\r", "\"", " ", "\x00", "ab", "é", "*", "|", "\r\n", "", "", ""} // the empty string more often than the rest
 				v := shortWeird[t.Intn("jd.shortweird", len(shortWeird))]
 				set(a, v)
 				desc = append(desc, fmt.Sprintf("%s := %q", a.path, v))
@@ -267,7 +267,49 @@ func DamageJSON(t *tape.Tape, data []byte) (out []byte, desc []string, kinds []s
 					objs = append(objs, sl)
 				}
 			}
-			if len(objs) >= 2 {
+			if len(objs) >= 2 && t.Bool("jd.mm.flag") {
+				// a flag (boolean member) of one declaration also written into a declaration of the same
+				// kind (one that shares a key with it): few members are flags, and they switch behaviour
+				type flagRef struct {
+					obj map[string]interface{}
+					key string
+				}
+				var flags []flagRef
+				for _, sl := range objs {
+					o := get(sl).(map[string]interface{})
+					ks := make([]string, 0, len(o))
+					for k := range o {
+						ks = append(ks, k)
+					}
+					sortStrings(ks)
+					for _, k := range ks {
+						if _, isBool := o[k].(bool); isBool {
+							flags = append(flags, flagRef{o, k})
+						}
+					}
+				}
+				if len(flags) > 0 {
+					fr := flags[t.Intn("jd.mm.flag.idx", len(flags))]
+					var alike []map[string]interface{}
+					for _, sl := range objs {
+						o := get(sl).(map[string]interface{})
+						if _, has := o[fr.key]; has {
+							continue
+						}
+						for k := range fr.obj {
+							if _, shared := o[k]; shared {
+								alike = append(alike, o)
+								break
+							}
+						}
+					}
+					if len(alike) > 0 {
+						alike[t.Intn("jd.mm.flag.dst", len(alike))][fr.key] = fr.obj[fr.key]
+						desc = append(desc, fmt.Sprintf("flag %q (%v) also written into a declaration of the same kind", fr.key, fr.obj[fr.key]))
+						kinds = append(kinds, "json-misdirected-flag")
+					}
+				}
+			} else if len(objs) >= 2 {
 				dst := get(objs[t.Intn("jd.mm.dst", len(objs))]).(map[string]interface{})
 				src := get(objs[t.Intn("jd.mm.src", len(objs))]).(map[string]interface{})
 				keys := make([]string, 0, len(src))
